@@ -48,7 +48,7 @@
 //     literals: ferret_i128_from_string_ptr) counts as rejected by the target (nothing ran).
 //   - A time-out is re-observed alone with a 60 s limit; a second time-out is counted
 //     (timeouts_not_judged), not raised.
-//   - The internal budget stops new packs at 112 s (quick) / 17 min (thorough); packs are
+//   - The internal budget stops new packs at 360 s (quick) / 17 min (thorough); packs are
 //     ordered breadth first over (depth, phase group, optional-ness, i128, root constructor), so a
 //     stopped run (exhaustive=false) has still touched every class; vacuity is raised only by a
 //     run that was not stopped.
@@ -449,7 +449,7 @@ func oneCompositeK(comps, leaves []*ty, k int) []*ty {
 func Run(c *vl.Ctx) {
 	quick := c.Quick()
 	if quick {
-		c.SetBudget(112 * time.Second)
+		c.SetBudget(360 * time.Second)
 	} else {
 		c.SetBudget(17 * time.Minute)
 	}
